@@ -31,7 +31,8 @@ TYPE_CANDIDATES = ["string", "string[]", "varint", "net.ipaddress", "net.ipaddre
                    "String", " string", "string ", "string[][]", "string[]x", "[]", "", "str", "int", "object", "builtins.eval", "os.system", "os", "sys.exit",
                    "net", "net.ip", "net.ipaddress.ipaddress", "net.ip.ipaddress", "fieldtypes.string", "flow.record.fieldtypes.string", "net.tcp", "net.tcp.port",
                    "typedlist", "FieldType", "datetime.datetime", "path.from_windows", "__class__", "string\n", "string\x00", "ѕtring", "net.ipaddress\n", "dynamic", "wstring",
-                   "credential.username", "net.hostname", "string.__class__", "record.__init__", "uri.normalize"]
+                   "credential.username", "net.hostname", "string.__class__", "record.__init__", "uri.normalize",
+                   "net[]", "net.ipv4", "net.ipv4[]", "net.tcp[]", "net.udp", "net.udp[]", "credential", "credential[]", "net.ip[]", "net.ipaddress[][]", "[]string", "string[ ]"]
 
 
 class ExecSpy:
@@ -120,10 +121,12 @@ def run(tier):
     cases = []
     uniq = itertools.count()
 
-    def offer(s_classes, text, pos, path):
-        """deliver one candidate; returns the case dict"""
+    def offer(s_classes, text, pos, path, before=None):
+        """deliver one candidate; returns the case dict.  before: a field declared in front of the candidate"""
         u = next(uniq)
         declared = [("string", text)] if pos == "field" else [("string", "f0")]
+        if before:
+            declared = [("string", before)] + declared
         tname = f"t/n{u}" if pos == "field" else text
         c = {"s": list(s_classes), "pos": pos, "path": path, "text": text[:60], "accepted": False, "exc": "none", "fields_exact": True, "version_ok": True, "source_shape_ok": True,
              "tripwire": False, "special": False}
@@ -137,14 +140,14 @@ def run(tier):
             if path == "ctor":
                 desc = RecordDescriptor(tname, declared)
             elif path == "frame":
-                data = rc.header_frame() + rc.descriptor_frame(tname, declared) + rc.record_frame(tname, declared, ["v", None, None, None, 1])
+                data = rc.header_frame() + rc.descriptor_frame(tname, declared) + rc.record_frame(tname, declared, ["v"] * len(declared) + [None, None, None, 1])
                 recs = list(RecordStreamReader(io.BytesIO(data)))
                 desc = recs[0]._desc if recs else None
                 if desc is None:
                     raise ValueError("no record yielded")
             elif path == "json":
                 line1 = json.dumps({"_type": "recorddescriptor", "_data": [tname, [list(x) for x in declared]]})
-                line2 = json.dumps({"_type": "record", "_recorddescriptor": [tname, rc.descriptor_hash(tname, declared)], declared[0][1]: "v", "_source": None, "_classification": None,
+                line2 = json.dumps({"_type": "record", "_recorddescriptor": [tname, rc.descriptor_hash(tname, declared)], **{n: "v" for _, n in declared}, "_source": None, "_classification": None,
                                     "_generated": "2020-01-01T00:00:00+00:00", "_version": 1})
                 p = os.path.join(common.scratch("c06"), "x.json")
                 with open(p, "w", encoding="utf-8", errors="surrogateescape") as f:
@@ -162,12 +165,15 @@ def run(tier):
                 p = os.path.join(common.scratch("c06"), "x.avro")
                 schema = {"type": "record", "name": "x", "namespace": "t", "doc": json.dumps([tname, [list(x) for x in declared]]),
                           "fields": [{"name": "f0", "type": ["string", "null"]}]}
+                if before:
+                    raise ValueError("not delivered")
                 with open(p, "wb") as f:
                     fastavro.writer(f, fastavro.parse_schema(schema), [{"f0": "v"}])
                 rd = AvroReader(p)
                 desc = rd.desc
                 rd.close()
             c["accepted"] = desc is not None and (desc.name == tname) and [n for _, n in desc.get_field_tuples()] == [n for _, n in declared]
+            c["before"] = before or "none"
             if desc is not None and not c["accepted"]:
                 c["exc"] = "accepted-as-something-else"
                 c["accepted"] = True
@@ -181,6 +187,18 @@ def run(tier):
         c["tripwire"] = os.path.exists(TRIP)
         return c
 
+    def classes_of(text):
+        out = []
+        for ch in text[:40]:
+            if ch.isascii() and ch.isalpha(): out.append("L")
+            elif ch.isascii() and ch.isdigit(): out.append("D")
+            elif ch == "_": out.append("U")
+            elif ch == "/": out.append("S")
+            elif ch == "\n": out.append("N")
+            elif ch.isascii() and (ch.isprintable()): out.append("P")
+            elif not ch.isascii(): out.append("X")
+            else: out.append("C")
+        return out
     # (1) every class-string <= 4, two concretisations, both positions, through the constructor
     alphabet = ["L", "D", "U", "S", "N", "P", "X", "C"]
     strings = [()]
@@ -194,6 +212,20 @@ def run(tier):
             for pos in ("field", "type"):
                 cases.append(offer(sc, text, pos, "ctor"))
                 ctx.case((pos, text))
+    # (1b) the candidate as SECOND field, after a Python-keyword field (which selects the other class template) and after a plain one
+    reserved_like = ["_source", "_classification", "_generated", "_version", "_x", "__class__", "f0"]
+    for before in ("from", "ok"):
+        for sc in [x for x in strings if 0 < len(x) <= 3]:
+            text = "".join(ctx.rnd.choice(CONC[k]) for k in sc)
+            cases.append(offer(sc, text, "field", "ctor", before=before))
+            ctx.case(("field2", before, text))
+        for text in reserved_like + ["class", "import", "from"]:
+            if text == before:
+                continue  # a duplicate field name is outside the property
+            for path in ("ctor", "frame", "json"):
+                c = offer(classes_of(text), text, "field", path, before=before)
+                cases.append(c)
+                ctx.case(("field2", before, text, path))
     # (2) other delivery paths for a seeded subset of the class-strings
     subset = ctx.rnd.sample(strings[1:], 250 if not thorough else 2000)
     for sc in subset:
@@ -203,18 +235,6 @@ def run(tier):
                 cases.append(offer(sc, text, pos, path))
                 ctx.case((pos, text, path))
     # (3) hostile payloads and special names, all paths (class-string computed from the text)
-    def classes_of(text):
-        out = []
-        for ch in text[:40]:
-            if ch.isascii() and ch.isalpha(): out.append("L")
-            elif ch.isascii() and ch.isdigit(): out.append("D")
-            elif ch == "_": out.append("U")
-            elif ch == "/": out.append("S")
-            elif ch == "\n": out.append("N")
-            elif ch.isascii() and (ch.isprintable()): out.append("P")
-            elif not ch.isascii(): out.append("X")
-            else: out.append("C")
-        return out
     specials = PAYLOADS + ["RECORD_VERSION", "Record", "self", "cls", "args", "kwargs", "k", "v", "f", "values", "class", "from", "None", "True", "x" * 200, "a" * 254, "A/b/C_1", "a/b/", "/a", "a//b", "_a", "a_", "a1", "1a"]
     for text in specials:
         for pos in ("field", "type"):
